@@ -321,8 +321,8 @@ fn run(run: &mut Run) {
     run.rule("Placed gridded-layout libraries: 1-5 cells forming a DAG in shuffled listing order, stepped outlines of 1-4 steps (ties allowed), 0-5 metals, instances with all four reflection combinations and arbitrary locations, arbitrary assignments and cuts, abstract views without ports; export, check cell order, import, compare every field. Negative messages: the exported message with one of 16 faults (each mandatory sub-message removed, undefined/external reference, relative placement, non-monotone outline, negative track) must be an error, not a crash. Non-trivial = >= 2 cells, a reflected instance, an assignment and a cut; distinct by hash.");
     run.assume("abstract ports are not generated: their import is todo!() and they are not in the statement's field list");
     run.min_nontrivial = 200;
-    run.explore("roundtrip", run.tier.pick(200_000, 1_500_000), 500, &roundtrip_case);
-    run.explore("negative", run.tier.pick(80_000, 500_000), 520, &negative_case);
+    run.explore("roundtrip", run.tier.pick(500_000, 5_000_000), 500, &roundtrip_case);
+    run.explore("negative", run.tier.pick(200_000, 2_000_000), 520, &negative_case);
 }
 fn case(sub: &str) -> Option<Box<CaseFn<'static>>> {
     match sub {
